@@ -9,7 +9,7 @@ from bv.model import UnitModel, dims_of_quantity
 PID = "C09"
 RULE = (
     "The grid x-kind (Scalar on a simple/derived/empty quantity; Array on a simple/derived quantity backed by list, "
-    "tuple, ndarray (float64, also int64 and float32), lengths 0..4; FixedArray list/ndarray) x k-type (int, float, numpy float64/float32/int32/int64, "
+    "tuple, ndarray (float64, also int64 and float32), list/tuple of Python ints up to 4e18 (int and float k only), lengths 0..4; FixedArray list/ndarray; units drawn from every quantity type, half of the time the base unit of the type, with the dimensionless '-' among the favoured) x k-type (int, float, numpy float64/float32/int32/int64, "
     "0-d ndarray for Arrays; 1-d float64/int64 ndarray of equal length for Arrays) x the ten forms k*x x*k x/k x//k x+k "
     "k+x x-k k-x k/x k//x is enumerated completely for every Hypothesis draw of (unit/category choice, k magnitude, "
     "element values). Oracle: the result is an instance of x's class carrying a quantity; for the eight non-reciprocal "
@@ -31,6 +31,8 @@ XKINDS = [
     "array_list_simple", "array_tuple_simple", "array_ndarray_simple",
     "array_list_derived", "array_tuple_derived", "array_ndarray_derived", "array_list_empty", "array_ndarrayint_simple", "array_ndarrayf32_simple",
     "fixedarray_list_simple", "fixedarray_ndarray_simple", "fixedarray_tuple_derived",
+    # lists / tuples of Python ints up to 4e18: Python numbers do not overflow, so neither may the result
+    "array_listint_simple", "array_tupleint_simple", "fixedarray_listint_simple",
 ]
 
 
@@ -146,6 +148,12 @@ class Checker:
                 q = Quantity.CreateDerived(OrderedDict([(case["c1"], [case["u1"], 1]), (case["c2"], [case["u2"], case["e2"]])]))
         if cls == "scalar":
             return Scalar.CreateWithQuantity(q, vals[0] if vals else 1.5), Scalar
+        if cont in ("listint", "tupleint"):
+            ints = [int(i) or 1 for i in case.get("bigints", [])]  # (no zeros: k / x is part of the grid)
+            if cls == "fixedarray":
+                ints = (ints + [3, 5])[: max(2, len(ints))]
+                return FixedArray.CreateWithQuantity(q, list(ints), dimension=len(ints)), FixedArray
+            return Array.CreateWithQuantity(q, list(ints) if cont == "listint" else tuple(ints)), Array
         if cls == "array":
             if cont == "ndarrayint":
                 return Array.CreateWithQuantity(q, gen.as_container("ndarray_int", [int(round(v)) or 1 for v in vals])), Array
@@ -236,6 +244,8 @@ def grid():
         for ktype in KTYPES:
             if ktype.startswith("nd") and xkind.startswith("scalar"):
                 continue
+            if "int_simple" in xkind and "ndarray" not in xkind and ktype not in ("int", "float"):
+                continue  # a numpy number meeting a Python int beyond int64 is numpy's business, not the library's
             for form in FORMS:
                 yield xkind, ktype, form
 
@@ -245,12 +255,14 @@ def _strategies(db, um):
     for c in db.IterCategories():
         cats.setdefault(db.GetCategoryQuantityType(c), []).append(c)
     qts = [qt for qt in sorted(db.quantity_types) if qt in cats and qt != "Unknown"]
-    fav = ["length", "time", "mass", "pressure", "temperature", "volume"]
+    fav = ["length", "time", "mass", "pressure", "temperature", "volume", "dimensionless"]
 
     @st.composite
     def uc(draw):
         qt = draw(st.one_of(st.sampled_from(fav), st.sampled_from(qts)))
-        u = draw(st.sampled_from([i.unit for i in db.quantity_types[qt]]))
+        us = [i.unit for i in db.quantity_types[qt]]
+        # the base unit of a type is structurally special (for 'dimensionless' it is the bare '-'): half of the draws
+        u = draw(st.one_of(st.just(us[0]), st.sampled_from(us)))
         return u, draw(st.sampled_from(cats[qt]))
 
     @st.composite
@@ -272,6 +284,7 @@ def _strategies(db, um):
             "e2": e2,
             "kmag": draw(st.one_of(st.sampled_from([2.0, 3.0, -2.0, 7.0, 0.0, 1.0, -1.0, 0.0]), gen.moderate_values(1.0, 1e3))),
             "values": draw(st.lists(gen.moderate_values(1e-2, 1e4), min_size=0, max_size=4)),
+            "bigints": draw(st.lists(st.one_of(st.integers(-4 * 10**18, 4 * 10**18), st.integers(-1000, 1000), st.sampled_from([2**62, -(2**62), 2**63 - 1, 10**18])), min_size=0, max_size=4)),
         }
 
     return base()
